@@ -834,6 +834,10 @@ func (cs *c13sim) contendedAcquire(t *Tape) {
 	if cs.held || cs.pHeld || cs.pdb() == nil || cs.pdb().VerifHaltLock() != nil {
 		return
 	}
+	if t.Chance(1, 2) {
+		cs.acquireBehindCommit(t)
+		return
+	}
 	pc := cs.p.NewConn(cs.name, cs.jmode, cs.pageSize)
 	if pc.Open() != 0 {
 		return
@@ -926,6 +930,112 @@ func (cs *c13sim) contendedAcquire(t *Tape) {
 		cs.ref = tr.After
 	}
 	r.Count("c13.contended-acquire.checked")
+}
+
+// acquireBehindCommit: the /halt request (and its retry) arrive while a local
+// transaction of the primary is inside its commit (LiteFS is held up at one of
+// the file operations of CommitJournal / CommitWAL, the write lock is held). The
+// transaction commits, then the lock is granted: its position has to be the
+// primary's position at the grant, i.e. the one that includes that transaction.
+func (cs *c13sim) acquireBehindCommit(t *Tape) {
+	r := cs.r
+	lockID := int64(t.Range(1000, 1<<30))
+	stall := time.Duration(t.Range(40, 400)) * time.Millisecond
+	d1 := time.Duration(t.Range(1, 30)) * time.Millisecond
+	d2 := time.Duration(t.Range(1, 30)) * time.Millisecond
+	nth := t.Range(1, 4)
+	before := cs.pdb().Pos()
+	started := make(chan struct{})
+	var seen int
+	var fired bool
+	prev := cs.p.OS.Hook
+	cs.p.OS.Hook = func(phase, call, op, path string) {
+		if prev != nil {
+			prev(phase, call, op, path)
+		}
+		if phase == "pre" && !fired && (strings.HasPrefix(op, "COMMITJOURNAL") || strings.HasPrefix(op, "COMMITWAL")) {
+			if seen++; seen == nth {
+				fired = true
+				close(started)
+				time.Sleep(stall)
+			}
+		}
+	}
+	type txr struct {
+		res  TxResult
+		desc string
+	}
+	done := make(chan txr, 1)
+	go func() {
+		res, desc := cs.txOn(cs.p, t, cs.ref)
+		done <- txr{res, desc}
+	}()
+	var tr txr
+	select {
+	case <-started:
+	case tr = <-done:
+		// the commit has fewer file operations than asked for: nothing was held up
+		cs.p.OS.Hook = prev
+		if tr.res.Outcome == OutCommit {
+			cs.ref = tr.res.After
+		}
+		return
+	}
+	hdr := map[string]string{"Litefs-Id": litefs.FormatNodeID(cs.rep.Store.ID())}
+	target := fmt.Sprintf("/halt?name=%s&id=%d", cs.name, lockID)
+	ch := make(chan HTTPResult, 2)
+	post := func() {
+		ctx, cancel := context.WithTimeout(context.Background(), 10*time.Second)
+		defer cancel()
+		ch <- cs.p.HTTP(ctx, "POST", target, hdr, nil, false)
+	}
+	go post()
+	time.Sleep(d1)
+	go post()
+	time.Sleep(d2)
+	tr = <-done
+	cs.p.OS.Hook = prev
+	if !r.Check(tr.res.Outcome == OutCommit, "c13.primary-stuck", "a local transaction of the primary (%s) that was inside its commit when /halt arrived ended %s at %s (%v)", tr.desc, tr.res.Outcome, tr.res.FailedAt, tr.res.Errno) {
+		return
+	}
+	cs.ref = tr.res.After
+	after := cs.pdb().Pos()
+	for i := 0; i < 2; i++ {
+		var res HTTPResult
+		select {
+		case res = <-ch:
+		case <-time.After(20 * time.Second):
+			r.Failf("c13.repeat-acquire", "a /halt request that waited behind a committing local transaction has not been answered 20 s after it finished")
+			return
+		}
+		if !r.Check(res.Code == 200 && !res.Panicked, "c13.repeat-acquire", "of two /halt requests with id %d that waited behind a committing local transaction one answered %d %s", lockID, res.Code, strings.TrimSpace(string(res.Body))) {
+			return
+		}
+		var got litefs.HaltLock
+		if err := json.Unmarshal(res.Body, &got); err != nil {
+			r.Failf("c13.repeat-acquire", "decode: %v", err)
+			return
+		}
+		if !r.Check(got.ID == lockID && got.Pos == after, "c13.grant-position", "halt lock %d was requested while a local transaction of the primary was committing (%s -> %s); it was granted after that commit with position %s: the holder would start writing from a position that is not the primary's", lockID, before, after, got.Pos) {
+			return
+		}
+	}
+	now := cs.pdb().VerifHaltLock()
+	if !r.Check(now != nil && now.ID == lockID && now.Pos == after, "c13.grant-position", "the primary is at %s; its granted halt lock is %v", after, now) {
+		return
+	}
+	ctx, cancel := context.WithTimeout(context.Background(), 10*time.Second)
+	res := cs.p.HTTP(ctx, "DELETE", target, hdr, nil, false)
+	cancel()
+	if !r.Check(res.Code == 200 && !res.Panicked, "c13.release", "DELETE /halt for the granted lock %d answered %d %s", lockID, res.Code, strings.TrimSpace(string(res.Body))) {
+		return
+	}
+	// the replica follows to the new position
+	if !waitPos(cs.rep, cs.name, after, 20*time.Second) {
+		r.Failf("c13.follow", "the replica did not reach %s after the halt lock was given back (it is at %s)", after, posOf(cs.rep, cs.name))
+		return
+	}
+	r.Count("c13.acquire-behind-commit.checked")
 }
 
 // repeatAcquire: the same /halt request again (a retried call).
